@@ -56,12 +56,12 @@ type sNode struct {
 }
 
 type sMacro struct {
-	name    int
-	fmt     int
+	name     int
+	fmt      int
 	explicit bool // result format written in the declaration
-	nparams int
-	rec     bool
-	body    []sNode
+	nparams  int
+	rec      bool
+	body     []sNode
 }
 
 type sImport struct {
@@ -154,10 +154,10 @@ func (g *gen) place(sf *sFile) {
 	}
 	pathDir[sf.path], pathBase[sf.path] = dir, base
 }
-func macroName(n int) string     { return fmt.Sprintf("M%d", n) }
-func aliasName(n int) string     { return fmt.Sprintf("al%d", n) }
-func valName(n int) string       { return fmt.Sprintf("v%d", n) }
-func paramName(n int) string     { return fmt.Sprintf("p%d", n) }
+func macroName(n int) string { return fmt.Sprintf("M%d", n) }
+func aliasName(n int) string { return fmt.Sprintf("al%d", n) }
+func valName(n int) string   { return fmt.Sprintf("v%d", n) }
+func paramName(n int) string { return fmt.Sprintf("p%d", n) }
 
 func (fs *fileSet) file(p int) *sFile {
 	for _, f := range fs.files {
@@ -593,18 +593,18 @@ func (r tcResult) String() string {
 // ---- generator
 
 type gen struct {
-	c        *Ctx
-	fs       *fileSet
-	nextPath int
-	nextName int
-	maxDepth int
-	allowRec bool
-	noURL    bool
+	c            *Ctx
+	fs           *fileSet
+	nextPath     int
+	nextName     int
+	maxDepth     int
+	allowRec     bool
+	noURL        bool
 	allowRecFile bool
-	plainOnly bool
-	anyFormats bool
-	dirs      bool // files in several directories, relative paths
-	rendered  map[int]bool // files created by a render expression
+	plainOnly    bool
+	anyFormats   bool
+	dirs         bool         // files in several directories, relative paths
+	rendered     map[int]bool // files created by a render expression
 }
 
 var fmtTexts = [][]string{
@@ -957,6 +957,9 @@ func (fs *fileSet) srcMap() map[string]string {
 // every k up to the number of writes of a successful render, a writer failing
 // at its k-th call gets exactly k calls, Run returns the writer's error, what
 // was accepted is the first k-1 chunks of the successful render.
+// panicTemplates: the template being checked may end with an unrecovered panic of its own
+var panicTemplates bool
+
 func checkWriteFail(c *Ctx, t *scriggo.Template, det func() map[string]any, maxK int) {
 	for kind := 0; kind < 3; kind++ {
 		writerKind = kind
@@ -972,7 +975,10 @@ func checkWriteFail(c *Ctx, t *scriggo.Template, det func() map[string]any, maxK
 func checkWriteFailKind(c *Ctx, t *scriggo.Template, det func() map[string]any, maxK int) {
 	ok := runTemplate(t, 0)
 	c.Count("evaluations")
-	if ok.res != "nil" {
+	// a template that ends with an unrecovered panic of its own (res e1000: an error that is not the
+	// writer's) still returns the writer's error when one of its writes, also of a deferred macro
+	// running while the panic unwinds, fails
+	if ok.res != "nil" && !(panicTemplates && ok.res == "e1000") {
 		if ok.res == "hostpanic:none" {
 			// no converter configured: the recorded finding of C05 (host-panic:no-markdown-converter)
 			c.Count("skipped-no-converter")
@@ -1005,11 +1011,21 @@ func checkWriteFailKind(c *Ctx, t *scriggo.Template, det func() map[string]any, 
 			d["k"] = k
 			d["result"] = r.String()
 			d["successful"] = ok.String()
+			if panicTemplates && bad == "writes-after-failure" && r.res == "e7" {
+				// recorded finding: the deferred macros still run, and write, after the failing write
+				if !reportedDeferredWrites {
+					reportedDeferredWrites = true
+					c.Fail("writes-after-failure:deferred-macro", d)
+				}
+				continue
+			}
 			c.Fail(bad, d)
 			return
 		}
 	}
 }
+
+var reportedDeferredWrites bool
 
 func init() {
 	Register("C13-sweep", func(c *Ctx) {
@@ -1030,7 +1046,10 @@ func init() {
 			if err != nil {
 				return
 			}
-			checkWriteFail(c, t, func() map[string]any { return map[string]any{"files": in["files"], "main": name, "conv": conv} }, 200)
+			panicTemplates, _ = in["panicking"].(bool)
+			checkWriteFail(c, t, func() map[string]any {
+				return map[string]any{"files": in["files"], "main": name, "conv": conv, "panicking": panicTemplates}
+			}, 200)
 			return
 		}
 		// the Markdown conversion at the return of a rendered file (repaired: used to panic)
@@ -1042,7 +1061,21 @@ func init() {
 			{scriggo.Files{"index.html": []byte(`{% macro M markdown %}*a*{{ v3 }}{% end %}<p>{{ M() }}</p>{{ M() }}`)}, "index.html"},
 			{scriggo.Files{"index.html": []byte(`{% var m = render "p.md" %}<p>{{ m }}</p>`), "p.md": []byte("# t {{ v0 }}")}, "index.html"},
 		}
-		for _, f := range fixed {
+		// deferred macros that write while a panic unwinds, with and without recovering it
+		panicking := []string{
+			`{% macro Footer %}footer{{ v0 }}{% end %}{% defer Footer() %}head{{ v1 }}{% panic("boom") %}tail`,
+			`{% macro A %}a{% end %}{% macro B %}b{{ v0 }}b{% end %}{% defer A() %}{% defer B() %}x{% var z = 0 %}{{ 1 / z }}y`,
+			`{% macro R %}{% if recover() != nil %}recovered{{ v0 }}{% end %}{% end %}{% macro M %}{% defer R() %}in{% panic("p") %}{% end %}pre{{ M() }}post{{ v1 }}`,
+			`{% macro F %}f{{ v0 }}{% end %}{% macro G %}{% defer F() %}g{% panic("q") %}{% end %}{% defer F() %}s{{ G() }}t`,
+		}
+		for _, src := range panicking {
+			fixed = append(fixed, struct {
+				files scriggo.Files
+				main  string
+			}{scriggo.Files{"index.html": []byte(src)}, "index.html"})
+		}
+		for fi, f := range fixed {
+			panicTemplates = fi >= len(fixed)-len(panicking)
 			t, err := scriggo.BuildTemplate(f.files, f.main, &scriggo.BuildOptions{Globals: tvalGlobals(), MarkdownConverter: fakeConv})
 			if err != nil {
 				c.Fail("fixed-corpus-does-not-build", map[string]any{"error": err.Error()})
@@ -1052,8 +1085,11 @@ func init() {
 			for k, v := range f.files {
 				m[k] = string(v)
 			}
-			checkWriteFail(c, t, func() map[string]any { return map[string]any{"files": m, "main": f.main, "conv": true} }, 200)
+			checkWriteFail(c, t, func() map[string]any {
+				return map[string]any{"files": m, "main": f.main, "conv": true, "panicking": panicTemplates}
+			}, 200)
 		}
+		panicTemplates = false
 		for i := 0; i < c.N; i++ {
 			fs := genSmallFileSet(c, false)
 			conv := c.Rng.Intn(6) != 0
